@@ -276,4 +276,28 @@ theorem tbl_item_targets_have_events (tk ev : Status) (a p c f i : Bool) (s' : S
   revert this hne
   cases s' <;> decide
 
+/-! ### C02/C03: last one out -/
+
+def leavesActive : Status → Bool
+  | .pending | .paused | .succeeded | .failed | .canceled | .retrying => true
+  | _ => false
+
+def resting : Status → Bool
+  | .succeeded | .failed | .canceled | .paused => true
+  | _ => false
+
+/-- **C02/C03** (last one out): when a task leaves the active set and no other task is active, a
+    pausing or canceling workflow does not stay pausing or canceling -/
+theorem tbl_leave_active_total : ∀ (s ev : Status) (rem : Bool) (oc : Outcome),
+    (s == .pausing || s == .canceling) = true → leavesActive ev = true →
+      (wfOnTaskEvent s ev rem false oc).all? (fun s' => !(s' == .pausing || s' == .canceling)) = true := by
+  decide +kernel
+
+/-- **C03**: a completion with nothing active brings a running or resuming workflow to rest,
+    unless something is staged or a next task exists (outcome `incomplete`) -/
+theorem tbl_quiescent_resolves : ∀ (s ev : Status) (rem : Bool) (oc : Outcome),
+    (s == .running || s == .resuming) = true → (ev == .succeeded || ev == .failed || ev == .canceled) = true →
+      (wfOnTaskEvent s ev rem false oc).all? (fun s' => resting s' || oc == .incomplete) = true := by
+  decide +kernel
+
 end Orq
